@@ -152,7 +152,7 @@ def rule_enq(ctx, rep):
         # helper side
         h = ctx.fn(F.lib, "call_rcu_thread")
         rep.touch(h)
-        dec = [e.inst for e in pat.accesses(h, "call_rcu_data.futex", ("rmw",)) if e.rop == "dec"]
+        dec = [e.inst for e in pat.accesses(h, "call_rcu_data.futex", ("rmw",)) if pat.is_decrement(h, e)]
         sp = crdp_queue_splices(h)
         emp = [i for i in h.all_insts() if i.op == "load" and "call_rcu_data.cbs_head" in pat.full_ap_fields(i.d["ap"])]
         if not dec:
